@@ -4,9 +4,10 @@ import graphs as G, samplecorr as SC, exact as X
 from fractions import Fraction as Fr
 
 
-def conserving_case(r, emax):
-    """a sample case whose shifts conserve momentum for external momenta on ALL vertices"""
-    c = SC.gen_sample_case(r, emax=emax)
+def conserving_case(r, emax, consistent=False):
+    """a sample case whose shifts conserve momentum for external momenta on ALL vertices;
+    consistent: all vertices are DECLARED external and every massive-flagged edge has a non-zero mass"""
+    c = SC.gen_sample_case(r, emax=emax, ext_all=consistent, all_masses=consistent)
     pairs = [tuple(p) for p in c["oriented_pairs"]]      # orientation the signature refers to
     sig, tree, chords = G.fundamental_signature(pairs)
     ext, p = X.conserving_shifts(r, pairs, c["signature"], tree, c["D"])
